@@ -669,6 +669,8 @@ def gen_faults(rng, script, nsigs, ncalls_hint, kinds):
         return [(k, "subst %d %d" % (rng.randrange(0, n), rng.randrange(0, nsigs)))]
     if kind == "widen":
         return [(k, "widen %d" % rng.randrange(0, n))]
+    if kind == "swapsig":
+        return [(k, "swapsig %d %d" % (rng.randrange(0, nsigs), rng.randrange(0, nsigs)))]
     if kind == "addw":
         return [(k, "addw %d" % rng.randrange(0, nsigs))]
     raise ValueError(kind)
